@@ -76,29 +76,29 @@ MC_DEPS = {
 
 MC = {
     "Small": {
-        "quick": ("MCGriddle", "MCSmall", 6, 900),
+        "quick": ("MCGriddle", "MCSmall", 6, 3600),
         "thorough": ("MCGriddle", "MCSmall6", 12, 7200),
     },
     # drain_filter as a process holding a raw iterator across removals that may free the old table
     "Iter": {
-        "quick": ("MCIter", "MCIter", 4, 900),
+        "quick": ("MCIter", "MCIter", 4, 3600),
         "thorough": ("MCIter", "MCIter5", 8, 3600),
     },
     "Fault": {
-        "quick": ("MCGriddle", "MCFault", 6, 900),
+        "quick": ("MCGriddle", "MCFault", 6, 3600),
         "thorough": ("MCGriddle", "MCFault6", 12, 7200),
     },
     # every n, m in 0..MaxUsize (a 1-byte usize) in every reachable state: wraps, checked_mul, layout limit
     "Overflow": {
-        "quick": ("MCCount", "MCOverflow", 6, 900),
+        "quick": ("MCCount", "MCOverflow", 6, 3600),
         "thorough": ("MCCount", "MCOverflow", 6, 900),
     },
     "OverflowDbg": {
-        "quick": ("MCCount", "MCOverflowDbg", 6, 900),
+        "quick": ("MCCount", "MCOverflowDbg", 6, 3600),
         "thorough": ("MCCount", "MCOverflowDbg", 6, 900),
     },
     "CountR8": {
-        "quick": ("MCCount", "MCCountR8_64", 8, 900),
+        "quick": ("MCCount", "MCCountR8_64", 8, 3600),
         "thorough": ("MCCount", "MCCountR8", 12, 3600),
     },
 }
